@@ -93,7 +93,8 @@ static unsigned arg_start(const char *msg_)
     const uint8_t *aligned_ptr = args-1;
     const uint8_t *arg_pos = args;
 
-    while(*++arg_pos);
+    //the type tag string may be empty
+    while(*arg_pos) ++arg_pos;
     //Alignment
     arg_pos += 4-(arg_pos-aligned_ptr)%4;
     return arg_pos-msg;
@@ -148,7 +149,8 @@ static unsigned arg_off(const char *msg, unsigned idx)
     const uint8_t *aligned_ptr = args-1;
     const uint8_t *arg_pos = args;
 
-    while(*++arg_pos);
+    //the type tag string may be empty
+    while(*arg_pos) ++arg_pos;
     //Alignment
     arg_pos += 4-(arg_pos-((uint8_t*)aligned_ptr))%4;
 
